@@ -457,6 +457,73 @@ func (r *vfFilterRig) abortedDrag(work string) bool {
 	return true
 }
 
+// firedDrag: a drag of an existing path that the user does not cancel makes the filter interrupt the
+// remote shell and type the upload command (the documented exception).  The remote has no trz: its
+// echo comes merged with the error text in one chunk (or, variant, as a chunk of its own, which the
+// filter may blank).  Once the drag window (3 s) is over the wrapper must be transparent again, also
+// for output chunks that happen to equal the upload command.
+func (r *vfFilterRig) firedDrag(work string, echoAlone bool) bool {
+	c := r.c
+	existing := filepath.Join(work, "dragged fired.bin")
+	os.WriteFile(existing, []byte("x"), 0644)
+	i0 := r.siSink.Len()
+	r.clientIn.WriteAtomic([]byte("'" + existing + "' "))
+	deadline := time.Now().Add(10 * time.Second)
+	for !bytes.HasSuffix(r.siSink.Bytes()[i0:], []byte("trz\r")) && time.Now().Before(deadline) {
+		time.Sleep(5 * time.Millisecond)
+	}
+	gotIn := append([]byte(nil), r.siSink.Bytes()[i0:]...)
+	if !bytes.Equal(gotIn, []byte("\x03trz\r")) {
+		if len(gotIn) < 5 && bytes.HasPrefix([]byte("\x03trz\r"), gotIn) {
+			c.Slow("c05-drag-not-fired", "10 s after an uncancelled drag the server had only received %q", gotIn)
+		} else {
+			c.Viol("c05-input-not-transparent:fired-drag", "an uncancelled drag of one existing path made the server receive %q (expected the interrupt and the upload command only)", vfHead(gotIn, 80))
+		}
+		return false
+	}
+	o0 := r.clientOut.Len()
+	var wantOut []byte
+	if echoAlone {
+		r.serverOut.WriteAtomic([]byte("trz\r\n"))
+		wantOut = append(wantOut, "\r\n"...)
+		time.Sleep(30 * time.Millisecond)
+		ch := []byte("bash: trz: command not found\r\n$ ")
+		r.serverOut.WriteAtomic(ch)
+		wantOut = append(wantOut, ch...)
+	} else {
+		ch := []byte("trz\r\nbash: trz: command not found\r\n$ ")
+		r.serverOut.WriteAtomic(ch)
+		wantOut = append(wantOut, ch...)
+	}
+	time.Sleep(3300 * time.Millisecond) // the drag window closes 3 s after the command was typed
+	for _, ch := range []string{"trz", "trz\r\n", "$ "} {
+		r.serverOut.WriteAtomic([]byte(ch))
+		wantOut = append(wantOut, ch...)
+		time.Sleep(20 * time.Millisecond)
+	}
+	deadline = time.Now().Add(5 * time.Second)
+	for r.clientOut.Len()-o0 < len(wantOut) && time.Now().Before(deadline) {
+		time.Sleep(2 * time.Millisecond)
+	}
+	gotOut := r.clientOut.Bytes()[o0:]
+	if !bytes.Equal(gotOut, wantOut) {
+		i := vfLCP(gotOut, wantOut)
+		if i == len(gotOut) {
+			time.Sleep(2 * time.Second)
+			gotOut = r.clientOut.Bytes()[o0:]
+			i = vfLCP(gotOut, wantOut)
+		}
+		c.Viol("c05-output-not-transparent:fired-drag", "remote output after a drag upload command that the remote did not know (echo alone=%v): first difference at %d, got %q want %q", echoAlone, i, vfHead(gotOut[vfMin(i, len(gotOut)):], 40), vfHead(wantOut[vfMin(i, len(wantOut)):], 40))
+		return false
+	}
+	if r.filter.IsTransferringFiles() {
+		c.Viol("c05-still-transferring:fired-drag", "IsTransferringFiles() is true after the drag window closed")
+		return false
+	}
+	c.Obs("history_fired-drag", 1)
+	return true
+}
+
 var vfEpisodeKinds = []string{"success", "peer-fail", "malformed-cfg", "wrong-type", "local-refusal", "user-cancel", "upload-cancel", "ctrl-c-old", "ctrl-c-keep", "ctrl-c-delete", "ctrl-c-continue"}
 
 func TestVF_C05(t *testing.T) {
@@ -510,6 +577,18 @@ func TestVF_C05(t *testing.T) {
 						return
 					}
 					if !rig.probe("after-aborted-drag", vfOutChunks(r, opts, 6), vfInChunks(r, 5)) {
+						c.Replay(map[string]interface{}{"history": hist, "opts": o})
+						return
+					}
+				}
+				if opts.DetectDragFile && (i+k)%5 == 1 {
+					echoAlone := (i/5)%2 == 0
+					hist = append(hist, fmt.Sprintf("fired-drag(echo alone=%v)", echoAlone))
+					if !rig.firedDrag(c.Dir, echoAlone) {
+						c.Replay(map[string]interface{}{"history": hist, "opts": o})
+						return
+					}
+					if !rig.probe("after-fired-drag", vfOutChunks(r, opts, 6), vfInChunks(r, 5)) {
 						c.Replay(map[string]interface{}{"history": hist, "opts": o})
 						return
 					}
